@@ -10,6 +10,7 @@
 //	{"a":"start","p":"p1","fam":"v4","fail":""|"addr"|"write","burst":0|1,"inline":""|kind}   inline: hand a message of that kind
 //	                                     (own identifier) to Parse from inside the connection's WriteTo of this ping
 //	{"a":"reply","tgt":"p1"|"noproc","off":k,"kind":"echoReply4|echoReply6|echoRequest|malformed","sub":"..."}
+//	{"a":"release","p":"p1"}     a ping started with fail "blockfail" hangs inside the connection's WriteTo; let it fail now
 //	{"a":"timeout","p":"p1"}     wait until p's own timer has expired and p returned
 //	{"a":"ret","p":"p1"}         wait until p returned
 //
@@ -69,7 +70,9 @@ type ping struct {
 	done    chan struct{}
 	id      int // identifier seen on the wire (or leaked), -1 unknown (guarded by driver.mu)
 	ret     bool
-	inline  string // kind of the message handed to Parse from inside the connection's WriteTo ("" = none)
+	inline  string        // kind of the message handed to Parse from inside the connection's WriteTo ("" = none)
+	release chan struct{} // fail == "blockfail": the send hangs inside WriteTo until this is closed, then fails
+	freed   bool
 }
 
 type driver struct {
@@ -171,7 +174,22 @@ func (d *driver) launch(p *ping, gate chan struct{}) {
 			rec["res"] = "error"
 			rec["err"] = err.Error()
 		}
-		if p.fail != "" {
+		if p.fail == "blockfail" {
+			// other pings registered meanwhile: the identifier is the one read from the frame
+			d.mu.Lock()
+			own, shared := p.id, false
+			for _, q := range d.pings {
+				if q != p && q.id == own {
+					shared = true
+				}
+			}
+			d.mu.Unlock()
+			for _, x := range packet.VerifPingWaiterIDs() {
+				if int(x) == own && !shared {
+					rec["leaked"] = own
+				}
+			}
+		} else if p.fail != "" {
 			for _, x := range packet.VerifPingWaiterIDs() {
 				if !before[x] {
 					rec["leaked"] = int(x)
@@ -194,7 +212,7 @@ func (d *driver) capture(want []*ping) {
 				continue
 			}
 			for _, p := range d.pings {
-				if d.idOf(p) >= 0 || p.fail == "addr" {
+				if d.idOf(p) >= 0 || p.fail == "addr" || p.fail == "blockfail" {
 					continue
 				}
 				if d.dst(p, fam).IP == dip && fam == p.fam && ((fam == "v4" && typ == 8) || (fam == "v6" && typ == 128)) {
@@ -231,6 +249,45 @@ func (d *driver) noteSent(p *ping, id int) {
 	if p.id < 0 {
 		p.id = id
 		d.log(map[string]interface{}{"a": "sent", "p": p.name, "id": id})
+	}
+}
+
+type errBlocked struct{}
+
+func (errBlocked) Error() string { return "verif: injected write failure after a blocked send" }
+
+// beforeWrite runs at the entry of the connection's WriteTo: the send of a "blockfail" ping hangs here
+// (its identifier is already allocated and registered) until the script releases it, and then fails.
+func (d *driver) beforeWrite(frame []byte) error {
+	fam, dip, typ, id, ok := decodeEcho(frame)
+	if !ok || !((fam == "v4" && typ == 8) || (fam == "v6" && typ == 128)) {
+		return nil
+	}
+	d.mu.Lock()
+	var hit *ping
+	for _, p := range d.pings {
+		if p.fail == "blockfail" && p.fam == fam && d.dst(p, fam).IP == dip {
+			hit = p
+			if p.id < 0 {
+				p.id = id
+			}
+		}
+	}
+	d.mu.Unlock()
+	if hit == nil {
+		return nil
+	}
+	<-hit.release
+	return errBlocked{}
+}
+
+func (d *driver) free(p *ping) {
+	d.mu.Lock()
+	f := p.freed
+	p.freed = true
+	d.mu.Unlock()
+	if !f && p.release != nil {
+		close(p.release)
 	}
 }
 
@@ -508,7 +565,7 @@ func (d *driver) behaviour(bid int, want int, evs []action) bool {
 			for _, g := range group {
 				name := g.s("p")
 				k, _ := strconv.Atoi(name[1:])
-				p := &ping{name: name, k: k, fam: g.s("fam"), fail: g.s("fail"), done: make(chan struct{}), id: -1, inline: g.s("inline")}
+				p := &ping{name: name, k: k, fam: g.s("fam"), fail: g.s("fail"), done: make(chan struct{}), id: -1, inline: g.s("inline"), release: make(chan struct{})}
 				sl, ok := d.slots[name]
 				if !ok {
 					sl = d.nslots + 2
@@ -530,11 +587,16 @@ func (d *driver) behaviour(bid int, want int, evs []action) bool {
 			}
 			close(gate)
 			for _, p := range started {
-				if p.fail != "" {
+				if p.fail != "" && p.fail != "blockfail" {
 					if !d.wait(p) {
 						return false
 					}
 					d.conn.FailN = 0
+				}
+				if p.fail == "blockfail" { // wait until it hangs inside WriteTo (identifier registered)
+					for i := 0; i < 2000 && d.idOf(p) < 0; i++ {
+						time.Sleep(50 * time.Microsecond)
+					}
 				}
 			}
 			d.capture(started)
@@ -555,6 +617,13 @@ func (d *driver) behaviour(bid int, want int, evs []action) bool {
 			if d.abort {
 				return false
 			}
+		case "release":
+			if p := d.pings[e.s("p")]; p != nil {
+				d.free(p)
+				if !d.wait(p) {
+					return false
+				}
+			}
 		case "timeout", "ret":
 			if p := d.pings[e.s("p")]; p != nil {
 				if !d.wait(p) {
@@ -562,6 +631,9 @@ func (d *driver) behaviour(bid int, want int, evs []action) bool {
 				}
 			}
 		}
+	}
+	for _, p := range d.pings {
+		d.free(p)
 	}
 	for _, p := range d.pings {
 		if !d.wait(p) {
@@ -616,6 +688,7 @@ func main() {
 	}
 	d.s, d.conn = s, conn
 	conn.OnWrite = d.onWrite
+	conn.Before = d.beforeWrite
 	sc := bufio.NewScanner(in)
 	sc.Buffer(make([]byte, 1<<20), 1<<24)
 	var cur []action
